@@ -299,6 +299,10 @@ def normalise(F, Fn):
             # a provided trait method: its body is what runs unless some impl of the trait defines the method itself
             if any(g.d.get("impl_trait") == d["trait_of"] and g.name == f.name for g in F.fns.values()):
                 continue
+            # a new provided method of the input contract is a new operation of the contract (a back-end written elsewhere may override
+            # it): it stays a call - the rules treat it like the reviewed bulk operations (rules/C12.derived_consumers)
+            if d["trait_of"] == "saphyr_parser::input::Input":
+                continue
         if "::test" in k or "::tests::" in k or len(f.blocks) > MAX_BLOCKS:
             continue
         cands[k] = f
